@@ -31,11 +31,14 @@ def shards(tier):
         return [dict(kind='rot', n=3200, parts=10, timeout=900),
                 dict(kind='trans', n=3200, parts=4, timeout=900),
                 dict(kind='feat', n=24, parts=2, timeout=900,
-                     env={'OMP_NUM_THREADS': 1})]
+                     env={'OMP_NUM_THREADS': 1}),
+                dict(kind='threads', n=12, parts=4, timeout=900,
+                     start=950000)]
     return [dict(kind='rot', n=96000, parts=10, timeout=3400),
             dict(kind='trans', n=96000, parts=4, timeout=3400),
             dict(kind='feat', n=400, parts=2, timeout=3400,
-                 env={'OMP_NUM_THREADS': 1})]
+                 env={'OMP_NUM_THREADS': 1}),
+            dict(kind='threads', n=300, parts=8, timeout=3400, start=950000)]
 
 
 def setup(ctx):
@@ -497,7 +500,61 @@ def _run_feat(ctx, rng, idx):
         ctx.sample(desc)
 
 
+def run_threads(ctx, rng, idx):
+    """Several Python threads assign rotamers at the same time, each with its
+    own boundary set / buffer (phi, psi and chi of one protein in a thread
+    pool), with GIL yields injected at the line boundaries of the state
+    machine's helpers: every sequence must equal the one computed alone, and
+    a later, strictly sequential call must not be affected either."""
+    from vf.monitor import threaded_differential
+    def orig(name):
+        f = getattr(rotamer, name)
+        return getattr(f, '__vf_orig__', f)
+    rot = orig('_rotamers')
+    jobs, descs = [], []
+    for k in range(int(rng.integers(6, 12))):
+        hb = BOUNDS[k % 3]
+        widest = max(hb[i + 1] - hb[i] for i in range(len(hb) - 1))
+        b = float(rng.integers(1, int((360 - widest) / 2)))
+        ang, _ = gen_angles(rng, hb, b)
+        ang = ang[:80]
+        jobs.append(lambda ang=ang, hb=hb, b=b: [int(x) for x in rot(
+            ang.copy(), list(hb), buffer_width=b)])
+        descs.append({'boundaries': hb, 'buffer': b, 'n': len(ang)})
+    ctx.describe({'jobs': descs})
+    helpers = [rot] + [orig(n_) for n_ in ('is_buffered_transition',
+                                           'get_gates')]
+    for nm, v in vars(rotamer).items():
+        if nm.startswith('_') and callable(v) and hasattr(v, '__code__') \
+                and v not in helpers:
+            helpers.append(v)
+    serial, thr, inj = threaded_differential(
+        jobs, helpers, seed=int(rng.integers(0, 2 ** 31)), n_threads=4,
+        timeout=60)
+    after = [('ok', j()) for j in jobs[:3]]
+    ctx.count('threaded_jobs', len(jobs))
+    ctx.count('yields_injected', inj.yields)
+    ctx.count('rotamer_calls', 0)
+    if any(t is None for t in thr):
+        ctx.count('threaded_jobs_unfinished')
+        return
+    for d, a, b_ in zip(descs, serial, thr):
+        if a != b_:
+            ctx.violation('rotamers.differs-under-threads',
+                          '%s: alone %s..., from one of 4 concurrent Python '
+                          'threads %s...' % (d, str(a)[:120], str(b_)[:120]))
+            break
+    if after != serial[:3]:
+        ctx.violation('rotamers.sequential-call-after-threads-differs',
+                      'a sequential call after the threaded phase no longer '
+                      'gives the result it gave before')
+    if inj.yields > 50:
+        ctx.nontriv('threads', idx, len(jobs))
+
+
 def run_case(ctx, kind, rng, idx):
+    if kind == 'threads':
+        return run_threads(ctx, rng, idx)
     if kind == 'rot':
         run_rot(ctx, rng, idx)
     elif kind == 'feat':
